@@ -55,21 +55,22 @@ static int versions( bool verbose )
     return 0;
 }
 // the central's version indication / PHY update is not the answer to a running connection parameter request
-static int foreign( bool verbose, bool phy = false )
+static int foreign( bool verbose, int phy = 0 )
 {
     ll_t ll;
     ll.respond_to( 37, valid_connection_request_pdu );
     ll.ll_empty_pdus( 3 );
     ll.ll_function_call( [&]{ ll.connection_parameter_update_request( 10, 20, 3, 2 * 20 * 4 ); } );
     ll.ll_empty_pdus( 3 );
-    if ( phy ) ll.ll_control_pdu( { 0x18, 0x00, 0x00, 0x00, 0x00 } );
+    if ( phy == 2 ) ll.ll_control_pdu( { 0x11, 0x12, 0x1a } );   // LL_REJECT_EXT_IND naming LL_PING_REQ
+    else if ( phy ) ll.ll_control_pdu( { 0x18, 0x00, 0x00, 0x00, 0x00 } );
     else       ll.ll_control_pdu( { 0x0C, 0x08, 0x47, 0x11, 0x08, 0x15 } );
     ll.end_of_simulation( bluetoe::link_layer::delta_time::seconds( 70 ) );
     ll.ll_empty_pdus( 2000 );
     ll.run( 4 );
     std::size_t with_traffic = 0;
     for ( const auto& ev : ll.connection_events() ) if ( !ev.received_data.empty() ) ++with_traffic;
-    const char* const what = phy ? "LL_PHY_UPDATE_IND" : "LL_VERSION_IND";
+    const char* const what = phy == 2 ? "LL_REJECT_EXT_IND( LL_PING_REQ )" : phy ? "LL_PHY_UPDATE_IND" : "LL_VERSION_IND";
     if ( verbose ) std::printf( "connection parameter request, then %s of the central, no answer to the request: %.1f s\n", what, with_traffic * 0.03 );
     if ( with_traffic * 0.03 > 45.0 ) { std::printf( "REPRODUCED: connection parameter request never answered, the central's %s stopped the response time out: link still up after %.1f s\n", what, with_traffic * 0.03 ); return 1; }
     return 0;
@@ -100,7 +101,8 @@ int main( int argc, char** argv )
     for ( int p = 0; p != 3; ++p ) rc |= play( p, true );
     rc |= versions( true );
     rc |= foreign( true );
-    rc |= foreign( true, true );
+    rc |= foreign( true, 1 );
+    rc |= foreign( true, 2 );
     rc |= answered( true );
     if ( !rc ) std::printf( "not reproduced\n" );
     return rc;
